@@ -134,6 +134,9 @@ pub fn all(quick: bool) -> Vec<Scenario> {
     if !quick {
         v.extend(with_worker_query());
     }
+    // the journal family under the same monitors (with a journal every answer to a client comes a
+    // flush later than the request was handled)
+    v.extend(journal(quick));
     v
 }
 
@@ -172,6 +175,13 @@ pub fn life(quick: bool) -> Vec<Scenario> {
         )
         .depth(if quick { 12 } else { 0 }),
         Scenario::new("life-2t-1w", vec![w(2)], vec![vec![sub(arr(&[0, 1], 1))]]).budgets(0, 1, 0, 1),
+        // history + live event stream without a journal (history reconstructed from the state)
+        Scenario::new(
+            "life-stream-all",
+            vec![w(1)],
+            vec![vec![sub(arr(&[0, 1], 1))], vec![Req::StreamAll], vec![Req::Cancel(1)]],
+        )
+        .budgets(0, 1, 0, 1),
         Scenario::new(
             "life-2t-1w-cancel",
             vec![w(2)],
@@ -233,10 +243,18 @@ pub fn dag(quick: bool) -> Vec<Scenario> {
     let join: &[(u32, &[u32])] = &[(0, &[]), (1, &[]), (2, &[0, 1])];
     // unusual but legal input: a task names the same dependency twice
     let dup: &[(u32, &[u32])] = &[(0, &[]), (1, &[0, 0]), (2, &[1, 0, 1])];
+    // a dependant whose consumers are reached on two paths (a triangle with a tail): when the root
+    // fails or is canceled every transitive dependant goes, whatever the order of the consumer sets
+    let tri_a: &[(u32, &[u32])] = &[(0, &[]), (1, &[0]), (2, &[0, 1]), (3, &[1])];
+    let tri_b: &[(u32, &[u32])] = &[(0, &[]), (1, &[0]), (3, &[0, 1]), (2, &[1])];
     // a dependency on a task that is listed later in the same submit (the server must either
     // reject the submit or respect the dependency)
     let forward: &[(u32, &[u32])] = &[(1, &[2]), (2, &[])];
     let mut v = vec![
+        Scenario::new("dag-triangle-tail-a", vec![w(1)], vec![vec![sub(SubmitSpec::graph(tri_a, RqSpec::cpus(1)))], vec![Req::Cancel(1)]])
+            .budgets(0, 1, 0, 1),
+        Scenario::new("dag-triangle-tail-b", vec![w(1)], vec![vec![sub(SubmitSpec::graph(tri_b, RqSpec::cpus(1)))], vec![Req::Cancel(1)]])
+            .budgets(0, 1, 0, 1),
         Scenario::new("dag-forward-ref", vec![w(2)], vec![vec![sub(SubmitSpec::graph(forward, RqSpec::cpus(1)))]])
             .budgets(0, 1, 0, 1),
         Scenario::new("dag-dup-dep", vec![w(1)], vec![vec![sub(SubmitSpec::graph(dup, RqSpec::cpus(1)))]])
@@ -380,6 +398,22 @@ pub fn prefill(quick: bool) -> Vec<Scenario> {
         )
         .prefill(0, 1)
         .depth(if quick { 10 } else { 0 }),
+    );
+    // pre-sent tasks of two request classes on one worker, then a more urgent task arrives: one
+    // message calls back pre-sent tasks of both classes
+    v.push(
+        Scenario::new(
+            "prefill-two-classes-hiprio",
+            vec![w(1).with("gpus", 1)],
+            vec![
+                vec![
+                    sub(arr(&[0, 1], 1)),
+                    sub(SubmitSpec::array(&[0, 1], RqSpec::only("gpus", "compact", 10_000))),
+                ],
+                vec![sub(arr(&[0], 1).prio(5))],
+            ],
+        )
+        .prefill(0, 1),
     );
     // request variants of different size with pre-sending: a pre-sent task is called back and
     // re-placed on the same worker with another variant while the worker starts it from its backlog
@@ -610,6 +644,24 @@ pub fn mn(quick: bool) -> Vec<Scenario> {
             vec![w(1), w(1)],
             vec![vec![sub(SubmitSpec::array(&[0], RqSpec::nodes(2)))], vec![Req::Cancel(1)]],
         ),
+        // a multi-node task that cannot be placed (one worker) is the more urgent blocker of a
+        // single-node task; cancelling only the waiting blocker must wake the scheduler
+        Scenario::new(
+            "mn-blocker-cancel",
+            vec![w(1)],
+            vec![
+                vec![sub(SubmitSpec::array(&[0], RqSpec::nodes(2))), sub(arr(&[0], 1))],
+                vec![Req::Cancel(1)],
+            ],
+        ),
+        Scenario::new(
+            "mn-blocker-cancel-prio",
+            vec![w(1)],
+            vec![
+                vec![sub(arr(&[0], 1)), sub(SubmitSpec::array(&[0], RqSpec::nodes(2)).prio(5))],
+                vec![Req::Cancel(2)],
+            ],
+        ),
         Scenario::new(
             "mn-2n-plus-sn",
             vec![w(1), w(1)],
@@ -812,6 +864,20 @@ pub fn open(quick: bool) -> Vec<Scenario> {
             ],
         )
         .budgets(0, 1, 0, 1),
+        // submits that would create a new job and are rejected (duplicate id, self dependency,
+        // unknown dependency): no effect, the next accepted job gets the next id
+        Scenario::new(
+            "reject-new-job-submits",
+            vec![w(1)],
+            vec![vec![
+                sub(SubmitSpec::graph(&[(0, &[]), (0, &[])], RqSpec::cpus(1))),
+                sub(SubmitSpec::graph(&[(1, &[1])], RqSpec::cpus(1))),
+                sub(SubmitSpec::graph(&[(2, &[9])], RqSpec::cpus(1))),
+                Req::JobInfoLast(1),
+                sub(arr(&[0], 1)),
+                Req::JobInfoLast(1),
+            ]],
+        ),
         // forget / cancel on a job that is still open
         Scenario::new(
             "open-cancel-forget",
@@ -1069,6 +1135,23 @@ pub fn journal(quick: bool) -> Vec<Scenario> {
             ],
         )
         .journal(),
+        // a client that streams history + live events (hq journal stream, the dashboard) while
+        // tasks run: every outcome reaches it exactly once, whatever the replay interleaves with
+        Scenario::new(
+            "journal-stream-all",
+            vec![w(1)],
+            vec![vec![sub(arr(&[0, 1], 1))], vec![Req::StreamAll], vec![Req::Cancel(1)]],
+        )
+        .journal()
+        .budgets(0, 1, 0, 1),
+        // dependencies + a failure limit: the consumer counters of a restored job
+        Scenario::new(
+            "journal-maxfails-deps",
+            vec![w(1)],
+            vec![vec![sub(SubmitSpec::graph(&[(0, &[]), (1, &[0]), (2, &[]), (3, &[])], RqSpec::cpus(1)).max_fails(2))]],
+        )
+        .journal()
+        .budgets(0, 1, 0, 1),
         Scenario::new(
             "journal-prune",
             vec![w(1), w(1).spare()],
